@@ -150,3 +150,10 @@ Proof.
   destruct empty_component_after_recursive_refuted as [t [p [subs [path H]]]].
   exists [([100], Dir [])], [100;47;42;42;47;42], [], [100;47]. vm_compute. repeat split.
 Qed.
+
+(* D5d, third trigger: `a${*n}/${*n}`: with n = "" the back-reference is empty and "a/" is accepted. *)
+Lemma empty_component_backref_refuted :
+  exists t p subs path,
+    recorded t p subs = Some [] /\ accepted_existing t p subs = Some [path]
+    /\ nglob_ref false p subs path = Some false.
+Proof. exists [([97], Dir [])], [97;36;123;42;110;125;47;36;123;42;110;125], [], [97;47]. vm_compute. repeat split. Qed.
